@@ -918,10 +918,8 @@ class Oracle(object):
             setop = k == key and ok
             name = op[1] if setop else None
             if setop and name in before[key + "_names"] and name not in before[key] and name in st["names"]:
-                # assigning to / deleting an entry that was not loaded reads the file first
-                b = fbytes(view, prefix + name)
-                if b is not None:
-                    st["files"][name] = b
+                # assigning to / deleting an entry that was not loaded reads the file first (None: it found no file)
+                st["files"][name] = fbytes(view, prefix + name)
             if setop and op[2] is None and name in st["names"] and name in before[key + "_names"]:
                 b = st["files"].pop(name, None)
                 if b is not None:
